@@ -7,10 +7,10 @@ set -eu
 GR=$(go env GOROOT)
 RT="$VERIF_BUILD_DIR/rt"
 mkdir -p "$RT"
-sed -e 's/r := uintptr(rand())/r := uintptr(verifMapIterRand())/' \
+sed -e 's/r := uintptr(rand())/r := uintptr(verifMapIterRand(h.count))/' \
     -e 's/h\.hash0 = uint32(rand())/h.hash0 = verifMapSeed()/' "$GR/src/runtime/map.go" > "$RT/map.go"
 sed -e 's/^\tsec, nsec, mono := now()$/\tsec, nsec, mono := now()\n\tsec += VerifSkewSeconds/' "$GR/src/time/time.go" > "$RT/time.go"
-grep -q 'verifMapIterRand()' "$RT/map.go" || { echo "runtime patch (mapiterinit) did not apply" >&2; exit 1; }
+grep -q 'verifMapIterRand(h.count)' "$RT/map.go" || { echo "runtime patch (mapiterinit) did not apply" >&2; exit 1; }
 [ "$(grep -c 'verifMapSeed()' "$RT/map.go")" -ge 4 ] || { echo "runtime patch (hash0) did not apply" >&2; exit 1; }
 grep -q 'sec += VerifSkewSeconds' "$RT/time.go" || { echo "time patch did not apply" >&2; exit 1; }
 ov=$(genoverlay)
